@@ -50,6 +50,13 @@ func (vc *VC) callValue(act *Act, st *State, common *ssa.CallCommon, fnVal Val, 
 	if common.IsInvoke() {
 		recv := fnVal.(IfaceV)
 		key := vc.eng.ifaceKey(common.Value.Type(), common.Method.Name())
+		if fn, dt := vc.devirtualize(recv, common.Method); fn != nil && len(vc.eng.eventsFor("invoke", key)) == 0 && len(vc.eng.sitesFor("invoke "+key, act.fn, vc.root)) == 0 {
+			// the receiver's dynamic type is known here: dispatch statically
+			payload := vc.unbox(st, recv, dt)
+			dargs := append([]Val{payload}, args...)
+			dtypes := append([]types.Type{dt}, argTypes...)
+			return vc.callStatic(act, st, fn, nil, dargs, dtypes, resT, fn.Signature, site, nil)
+		}
 		vc.siteCheck(act, st, "invoke "+key, site, common, args, argTypes, recv, common.Value.Type())
 		allArgs := append([]Val{recv}, args...)
 		allTypes := append([]types.Type{common.Value.Type()}, argTypes...)
@@ -81,69 +88,7 @@ func (vc *VC) callValue(act *Act, st *State, common *ssa.CallCommon, fnVal Val, 
 	}
 	callee := common.StaticCallee()
 	if callee != nil {
-		key := vc.eng.shortName(callee)
-		vc.siteCheck(act, st, "call "+key, site, common, args, argTypes, nil, nil)
-		evs := vc.eng.eventsFor("call", vc.eng.eventKeyOf(callee))
-		pre := st.clone()
-		var res Val
-		handled := false
-		if cv, ok := fnVal.(ClosureV); ok && len(callee.Blocks) > 0 && vc.eng.contractFor(callee) == nil {
-			res = vc.inline(act, st, callee, args, cv.bind, resT)
-			handled = true
-		}
-		if !handled {
-			if fc := vc.eng.contractFor(callee); fc != nil {
-				if fc.Inline && len(callee.Blocks) > 0 && act.depth < 6 {
-					res = vc.inline(act, st, callee, args, nil, resT)
-				} else {
-					names := make([]string, len(callee.Params))
-					for k, p := range callee.Params {
-						names[k] = p.Name()
-					}
-					res = vc.applyContract(act, st, fc, names, args, paramTypes(callee), resT, sig, site, "call "+key)
-				}
-			} else if ic := vc.eng.ifaceContractOfImpl(callee); ic != nil {
-				names := ic.ParamNames
-				if len(names) == 0 {
-					for k := range args {
-						names = append(names, fmt.Sprintf("arg%d", k))
-					}
-				}
-				res = vc.applyContract(act, st, ic, names, args, paramTypes(callee), resT, sig, site, "call "+key)
-			} else if ec := vc.eng.externFor(callee); ec != nil && ec.CallbackLoop {
-				res = vc.callbackLoop(act, st, callee, ec, args, argTypes, resT, site)
-				vc.used["extern:"+callee.String()] = true
-			} else if ec := vc.eng.externFor(callee); ec != nil {
-				names := ec.ParamNames
-				if len(names) == 0 {
-					for k := range args {
-						names = append(names, fmt.Sprintf("arg%d", k))
-					}
-				}
-				res = vc.applyContract(act, st, ec, names, args, argTypes, resT, sig, site, "extern "+callee.String())
-				vc.used["extern:"+callee.String()] = true
-			} else if r, ok := vc.intrinsic(act, st, callee, args, argTypes, resT, site); ok {
-				res = r
-			} else if vc.eng.autoPure(callee) {
-				// mechanically pure callee: no heap effect; it may allocate
-				old := st.top
-				st.top = vc.fresh("top", "Int")
-				vc.assume(st, fmt.Sprintf("(>= %s %s)", st.top, old))
-				if resT != nil {
-					res = vc.freshVal(st, "ret", resT)
-				}
-				vc.used["auto-pure:"+vc.eng.shortName(callee)] = true
-			} else {
-				// a callee that is itself a declared event is abstracted by that event; any other
-				// callee that can (statically) reach an event site invalidates the ghost state
-				touches := len(evs) == 0 && vc.eng.mayReachEvent(callee)
-				res = vc.defaultCall(act, st, resT, "call "+callee.String(), !touches)
-			}
-		}
-		for _, ev := range evs {
-			vc.applyEvent(act, st, pre, ev, args, argTypes, res, resT, site)
-		}
-		return res
+		return vc.callStatic(act, st, callee, fnVal, args, argTypes, resT, sig, site, common)
 	}
 	// dynamic call through a function value
 	if cv, ok := fnVal.(ClosureV); ok && len(cv.fn.Blocks) > 0 && act.depth < 6 {
@@ -198,6 +143,123 @@ func paramTypes(fn *ssa.Function) []types.Type {
 		out[k] = p.Type()
 	}
 	return out
+}
+
+// callStatic: a call whose callee is known (static call, or an interface call on a value whose
+// dynamic type is known at this point).
+func (vc *VC) callStatic(act *Act, st *State, callee *ssa.Function, fnVal Val, args []Val, argTypes []types.Type, resT types.Type, sig *types.Signature, site ssa.Instruction, common *ssa.CallCommon) Val {
+	{
+		key := vc.eng.shortName(callee)
+		vc.siteCheck(act, st, "call "+key, site, common, args, argTypes, nil, nil)
+		evs := vc.eng.eventsFor("call", vc.eng.eventKeyOf(callee))
+		pre := st.clone()
+		var res Val
+		handled := false
+		if cv, ok := fnVal.(ClosureV); ok && len(callee.Blocks) > 0 && vc.eng.contractFor(callee) == nil {
+			res = vc.inline(act, st, callee, args, cv.bind, resT)
+			handled = true
+		}
+		if !handled {
+			if fc := vc.eng.contractFor(callee); fc != nil {
+				if fc.Inline && len(callee.Blocks) > 0 && act.depth < 6 {
+					res = vc.inline(act, st, callee, args, nil, resT)
+				} else {
+					names := make([]string, len(callee.Params))
+					for k, p := range callee.Params {
+						names[k] = p.Name()
+					}
+					res = vc.applyContract(act, st, fc, names, args, paramTypes(callee), resT, sig, site, "call "+key)
+				}
+			} else if ic := vc.eng.ifaceContractOfImpl(callee); ic != nil && !(ic.Pure && trivialBody(callee)) {
+				names := ic.ParamNames
+				if len(names) == 0 {
+					for k := range args {
+						names = append(names, fmt.Sprintf("arg%d", k))
+					}
+				}
+				res = vc.applyContract(act, st, ic, names, args, paramTypes(callee), resT, sig, site, "call "+key)
+			} else if ec := vc.eng.externFor(callee); ec != nil && ec.CallbackLoop {
+				res = vc.callbackLoop(act, st, callee, ec, args, argTypes, resT, site)
+				vc.used["extern:"+callee.String()] = true
+			} else if ec := vc.eng.externFor(callee); ec != nil {
+				names := ec.ParamNames
+				if len(names) == 0 {
+					for k := range args {
+						names = append(names, fmt.Sprintf("arg%d", k))
+					}
+				}
+				res = vc.applyContract(act, st, ec, names, args, argTypes, resT, sig, site, "extern "+callee.String())
+				vc.used["extern:"+callee.String()] = true
+			} else if r, ok := vc.intrinsic(act, st, callee, args, argTypes, resT, site); ok {
+				res = r
+			} else if vc.eng.autoPure(callee) && trivialBody(callee) && act.depth < 6 {
+				// a mechanically pure, loop-free, tiny callee (accessor, Name()): evaluated in place
+				res = vc.inline(act, st, callee, args, nil, resT)
+				vc.used["auto-pure (inlined):"+vc.eng.shortName(callee)] = true
+			} else if vc.eng.autoPure(callee) {
+				// mechanically pure callee: no heap effect; it may allocate
+				old := st.top
+				st.top = vc.fresh("top", "Int")
+				vc.assume(st, fmt.Sprintf("(>= %s %s)", st.top, old))
+				if resT != nil {
+					res = vc.freshVal(st, "ret", resT)
+				}
+				vc.used["auto-pure:"+vc.eng.shortName(callee)] = true
+			} else {
+				// a callee that is itself a declared event is abstracted by that event; any other
+				// callee that can (statically) reach an event site invalidates the ghost state
+				touches := len(evs) == 0 && vc.eng.mayReachEvent(callee)
+				res = vc.defaultCall(act, st, resT, "call "+callee.String(), !touches)
+			}
+		}
+		for _, ev := range evs {
+			vc.applyEvent(act, st, pre, ev, args, argTypes, res, resT, site)
+		}
+		return res
+	}
+}
+
+// trivialBody: at most two blocks, no loops, no calls other than builtins.
+func trivialBody(fn *ssa.Function) bool {
+	if len(fn.Blocks) == 0 || len(fn.Blocks) > 3 {
+		return false
+	}
+	n := 0
+	for _, b := range fn.Blocks {
+		if isLoopHeader(b) {
+			return false
+		}
+		for _, ins := range b.Instrs {
+			n++
+			if c, ok := ins.(*ssa.Call); ok {
+				if _, isB := c.Call.Value.(*ssa.Builtin); !isB {
+					return false
+				}
+			}
+		}
+	}
+	return n <= 24
+}
+
+// devirtualize: the method an interface call dispatches to when the receiver's dynamic type is known.
+func (vc *VC) devirtualize(recv IfaceV, method *types.Func) (*ssa.Function, types.Type) {
+	id, err := parseInt(recv.tag)
+	if err != nil || id <= 0 {
+		return nil, nil
+	}
+	t, ok := vc.eng.typeByID[int(id)]
+	if !ok || types.IsInterface(t) {
+		return nil, nil
+	}
+	sel := vc.eng.prog.MethodSets.MethodSet(t).Lookup(method.Pkg(), method.Name())
+	if sel == nil {
+		return nil, nil
+	}
+	fn := vc.eng.prog.MethodValue(sel)
+	if fn == nil || len(fn.Blocks) == 0 || fn.Synthetic != "" {
+		return nil, nil
+	}
+	return fn, t
 }
 
 // defaultCall: the callee may modify everything except non-escaping locals; result unconstrained.
